@@ -272,7 +272,11 @@ func c07Piece(r *rand.Rand, k int) (string, string) {
 			hi := "\\u" + c07Hex(uint32(0xd800+r.Intn(0x400)), 4, r)
 			lo := "\\u" + c07Hex(uint32(0xdc00+r.Intn(0x400)), 4, r)
 			bmp := "\\u" + c07Hex(uint32(r.Intn(0xd800)), 4, r)
-			switch r.Intn(10) {
+			switch r.Intn(12) {
+			case 10:
+				return hi + "\\" + bmp, "high-backslash-bmp"
+			case 11:
+				return hi + "q" + bmp, "high-text-bmp"
 			case 0:
 				return hi, "lone-high"
 			case 1:
@@ -416,8 +420,36 @@ func c07Gen(c *Ctx) {
 		}
 	})
 
+	// ---- every sequence of at most three \u escapes over the code units at the edges of the surrogate ranges, bare and
+	// with a separator (text, a backslash) between them; the same units as \U escapes for UnicodeParse
+	{
+		units := []uint32{0xd7ff, 0xd800, 0xdbff, 0xdc00, 0xdfff, 0xe000}
+		seps := []string{"", "q", "\\"}
+		var seqs [][]uint32
+		for _, a := range units {
+			seqs = append(seqs, []uint32{a})
+			for _, b := range units {
+				seqs = append(seqs, []uint32{a, b})
+				for _, d := range units {
+					seqs = append(seqs, []uint32{a, b, d})
+				}
+			}
+		}
+		c.Each(len(seqs)*len(seps), func(i int, t *T) {
+			sq := seqs[i/len(seps)]
+			sep := seps[i%len(seps)]
+			var u16, u32 []string
+			for _, u := range sq {
+				u16 = append(u16, fmt.Sprintf("\\u%04X", u))
+				u32 = append(u32, fmt.Sprintf("\\U%08X", u))
+			}
+			t.Try("surrogate-boundaries", c07Case(7, int64(i%3), len(strings.Join(u16, sep)), []byte(strings.Join(u16, sep))), true)
+			t.Try("surrogate-boundaries", c07Case(6, int64(i%3), len(strings.Join(u32, sep)), []byte(strings.Join(u32, sep))), true)
+		})
+	}
+
 	// ---- parsers on the grammar-based malformed stream, cut at every distance from the end
-	n := c.N(9000, 250000)
+	n := c.N(30000, 600000)
 	c.Each(n, func(i int, t *T) {
 		r := t.R
 		k := i % 4
@@ -449,7 +481,7 @@ func c07Gen(c *Ctx) {
 	})
 
 	// ---- Format and the round trip
-	m := c.N(6000, 200000)
+	m := c.N(16000, 300000)
 	c.Each(m, func(i int, t *T) {
 		r := t.R
 		k := i % 4
@@ -537,5 +569,5 @@ func c07Shrink(in []int64) [][]int64 {
 
 func init() {
 	Register(&Prop{ID: "C07", Num: 7, SpecMode: "equal", Gen: c07Gen, Impl: c07Impl, Shrink: c07Shrink, Describe: c07Describe,
-		Rule: "parsers: (a) exhaustive: every sequence of <= 5 (thorough: 7) symbols over two 6-symbol alphabets per codec (characters; tokens building complete / truncated / out-of-range / adjacent escapes); (b) every byte value as an escape in both cases; (c) random concatenations of pieces {well-formed escape with random digit case, truncated escape, escape with one bad digit incl. the characters at the edges of the digit classes, boundary and out-of-range values (\\777, \\400, \\U00110000, \\UFFFFFFFF, \\U0000D800), lone / reversed / unpaired / doubled surrogates, a high surrogate followed by text, a backslash, a damaged or a BMP escape, adjacent escapes, bare backslashes and prefixes, text, raw UTF-8, raw bytes >= 0x80}, each fifth input also cut at every distance 1..W+2 from its end; entry points Parse(dst,src) (len(dst) = len(src), longer, or shorter), ParseToString(string), ParseToString([]byte), all slices with cap = len. Format and Parse∘Format: random bytes, valid UTF-8 of all four widths incl. the boundary scalars, damaged UTF-8 (surrogate encodings, overlongs, > U+10FFFF, truncated sequences), escape-looking text; all four entry points. Output compared byte for byte with the model (sub 0) and with the list-level specification (sub 1). distinct = distinct (op, variant, len(dst), argument); non-trivial = parser input of at least one escape width containing a backslash; Format / round-trip argument of at least 2 bytes"})
+		Rule: "parsers: (a) exhaustive: every sequence of <= 5 (thorough: 7) symbols over two 6-symbol alphabets per codec (characters; tokens building complete / truncated / out-of-range / adjacent escapes); (b) every byte value as an escape in both cases; every sequence of <= 3 escapes over the code units D7FF D800 DBFF DC00 DFFF E000 (bare, text-separated, backslash-separated) for Utf16Parse and UnicodeParse; (c) random concatenations of pieces {well-formed escape with random digit case, truncated escape, escape with one bad digit incl. the characters at the edges of the digit classes, boundary and out-of-range values (\\777, \\400, \\U00110000, \\UFFFFFFFF, \\U0000D800), lone / reversed / unpaired / doubled surrogates, a high surrogate followed by text, a backslash, a damaged or a BMP escape (directly, behind text, behind a backslash), adjacent escapes, bare backslashes and prefixes, text, raw UTF-8, raw bytes >= 0x80}, each fifth input also cut at every distance 1..W+2 from its end; entry points Parse(dst,src) (len(dst) = len(src), longer, or shorter), ParseToString(string), ParseToString([]byte), all slices with cap = len. Format and Parse∘Format: random bytes, valid UTF-8 of all four widths incl. the boundary scalars, damaged UTF-8 (surrogate encodings, overlongs, > U+10FFFF, truncated sequences), escape-looking text; all four entry points. Output compared byte for byte with the model (sub 0) and with the list-level specification (sub 1). distinct = distinct (op, variant, len(dst), argument); non-trivial = parser input of at least one escape width containing a backslash; Format / round-trip argument of at least 2 bytes"})
 }
